@@ -199,5 +199,49 @@ theorem cyl_nearest {s : Cylinder ℝ} {ray : Ray ℝ} {t0 t1 : ℝ}
   refine ⟨fun a b => select_first a h01 b, fun a b c => select_second a b c, fun a => ?_⟩
   simp [selectSpec, a]
 
+/-! ## disks -/
+
+/-- **a full disk (or annulus) reports every ray that crosses its plane inside the ring, in front of the origin** -/
+theorem disk_complete {s : Disk ℝ} {ray : Ray ℝ} {t : ℝ} (oe de : V3 ℝ) (ht : 0 ≤ t)
+    (hon : s.normal.normalize.dot (ray.project t - s.centre) = 0)
+    (hden : (Num.eps : ℝ) ≤ |s.normal.normalize.dot ray.direction|)
+    (hr1 : s.innerRadius * s.innerRadius ≤ (ray.project t - s.centre).lengthSquared)
+    (hr2 : (ray.project t - s.centre).lengthSquared ≤ s.radius * s.radius)
+    (hfull : 2 * Real.pi ≤ s.phiMax) :
+    ∃ phi, s.basicIntersection ray oe de = some (ray.project t, phi) := by
+  unfold Disk.basicIntersection
+  simp only []
+  rw [plane_complete ht hon hden]
+  simp only []
+  have c1 : ((ray.project t - s.centre).lengthSquared >. s.radius * s.radius ||
+      (ray.project t - s.centre).lengthSquared <. s.innerRadius * s.innerRadius) = false := by
+    bool_real; exact ⟨hr2, hr1⟩
+  simp only [c1, Bool.false_eq_true, if_false]
+  -- the angle is in [0, 2π)
+  obtain ⟨a, ha⟩ : ∃ a : ℝ, a = Num.atan2 ((-(ray.project t - s.centre)).dot (s.phiZero.cross s.normal))
+      ((ray.project t - s.centre).dot s.phiZero) := ⟨_, rfl⟩
+  rw [← ha]
+  have hle : a ≤ Real.pi := by rw [ha]; exact Complex.arg_le_pi _
+  have hpi := Real.pi_pos
+  split
+  · split
+    · rename_i hneg hc
+      exfalso
+      bool_real_at hneg
+      num_real_at hneg
+      bool_real_at hc
+      num_real_at hc
+      have hc' : s.phiMax < a + 2 * Real.pi := hc
+      linarith
+    · exact ⟨_, rfl⟩
+  · split
+    · rename_i hneg hc
+      exfalso
+      bool_real_at hc
+      have : a ≤ s.phiMax := by linarith
+      exact absurd hc (not_lt.2 this)
+    · exact ⟨_, rfl⟩
+
+
 end
 end G3d.C03
